@@ -33,7 +33,7 @@ func (p *Program) verifyFunc(c *Contract) *FuncResult {
 	for _, g := range stateComponents {
 		st.glob[g] = ex.fresh(g+"0", stateSorts[g])
 	}
-	fr := &Frame{ex: ex, fn: fn, contract: c, vals: map[ssa.Value]Val{}, names: map[string]Val{}, cellNames: map[string]*Cell{}}
+	fr := &Frame{ex: ex, fn: fn, contract: c, vals: map[ssa.Value]Val{}, names: map[string]Val{}, cellNames: map[string]*Cell{}, nilFlags: map[ssa.Value]Term{}}
 	entryEnv := &Env{Vars: map[string]Term{}, P: p}
 	bindParam := func(name string, v ssa.Value, t types.Type) {
 		if pt, ok := t.Underlying().(*types.Pointer); ok {
@@ -112,7 +112,7 @@ func (p *Program) verifyFunc(c *Contract) *FuncResult {
 	for _, e := range c.Ensures {
 		var goals []Term
 		for _, r := range rets {
-			env := fr.baseEnv(r.st, nil, nil)
+			env := fr.baseEnv(r.st, fr.names, nil)
 			for k, v := range entryEnv.Vars {
 				if _, isState := stateSorts[k]; !isState {
 					env.Vars[k] = v
@@ -140,10 +140,23 @@ func (p *Program) verifyFunc(c *Contract) *FuncResult {
 					}
 				}
 			}
+			for _, w := range c.Witnesses {
+				wt, err := env.tr(w.E)
+				if err != nil || wt.Sort != w.Sort {
+					ex.unsup(fn.Pos(), "witness %s: %v (sort %s, want %s)", w.Name, err, wt.Sort, w.Sort)
+					continue
+				}
+				env.Vars[w.Name] = wt
+			}
 			t, err := env.tr(e.E)
 			if err != nil || t.Sort != "Bool" {
 				ex.unsup(fn.Pos(), "ensures %s: %v", e.Label, err)
 				continue
+			}
+			if e.OnSuccess {
+				if ev, ok := env.Vars["err"]; ok && ev.Sort == "Err" {
+					t = implies(eq(ev, Term{"NoErr", "Err"}), t)
+				}
 			}
 			goals = append(goals, implies(r.cond, t))
 		}
